@@ -549,6 +549,14 @@ class Interp:
         if o is not None:
             self.ctx.frame_writes.append(f"{what} -> {o}")
 
+    def note_is_shared(self, obj):
+        """is obj state that outlives the call (function default, module global, class attribute)?"""
+        from . import frame as F
+
+        if F.owner_of(obj) is not None:
+            return True
+        return id(obj) in F.default_arg_ids()
+
     def setattr_(self, obj, name, value):
         self.note_write(obj, f"setattr .{name}")
         try:
